@@ -65,11 +65,52 @@ def generate(src, env, out, summary):
     except KeyError as e:
         failures.append(f'function not found: {e}')
 
+    # --- get_rdb_reference_datatype: the loop over the tables of a query ------------------------------------
+    loop = {'tableBranchDirect': False, 'tablesFromParser': False, 'breakOnFound': False, 'exceptPasses': False, 'otherExits': True}
+    try:
+        fn = src.func(rel, 'get_rdb_reference_datatype')
+        ifs = [st for st in fn.body if isinstance(st, ast.If)]
+        ret = fn.body[-1]
+        if len(ifs) == 1 and isinstance(ret, ast.Return) and ast.unparse(ret.value) == 'inferred_data_type':
+            top = ifs[0]
+            u = lambda n: ' '.join(ast.unparse(n).split())
+            if u(top.test) == "rml_rule['logical_source_type'] == RML_TABLE_NAME" and len(top.body) == 1 and \
+                    u(top.body[0]) == "inferred_data_type = _get_column_table_datatype(config, rml_rule['source_name'], rml_rule['logical_source_value'], reference)":
+                loop['tableBranchDirect'] = True
+            q = top.orelse[0] if len(top.orelse) == 1 and isinstance(top.orelse[0], ast.If) else None
+            if q is not None and u(q.test) == "rml_rule['logical_source_type'] == RML_QUERY" and not q.orelse:
+                body = [st for st in q.body if not isinstance(st, (ast.Import, ast.ImportFrom))]
+                if len(body) == 2 and u(body[0]) == "table_names = sql_metadata.Parser(rml_rule['logical_source_value']).tables" \
+                        and isinstance(body[1], ast.For) and u(body[1].target) == 'table_name' and u(body[1].iter) == 'table_names' and not body[1].orelse:
+                    loop['tablesFromParser'] = True
+                    fb = body[1].body
+                    if len(fb) == 1 and isinstance(fb[0], ast.Try) and len(fb[0].handlers) == 1 and not fb[0].orelse and not fb[0].finalbody:
+                        tr = fb[0]
+                        tb = [u(x) for x in tr.body]
+                        if tb == ["inferred_data_type = _get_column_table_datatype(config, rml_rule['source_name'], table_name, reference)",
+                                  'if inferred_data_type: break']:
+                            loop['breakOnFound'] = True
+                            loop['otherExits'] = False
+                        else:
+                            exits = [x for x in ast.walk(tr) if isinstance(x, (ast.Break, ast.Return, ast.Continue))]
+                            loop['otherExits'] = len(exits) != 0
+                        h = tr.handlers[0]
+                        if [u(x) for x in h.body] == ['pass']:
+                            loop['exceptPasses'] = True
+        if not (loop['tableBranchDirect'] and loop['tablesFromParser'] and loop['breakOnFound'] and loop['exceptPasses'] and not loop['otherExits']):
+            failures.append('get_rdb_reference_datatype: not `for table_name in <tables of the query>: try: dt = lookup(table_name); '
+                            f'if dt: break; except: pass` — recognised parts: {loop}')
+    except KeyError as e:
+        failures.append(f'function not found: {e}')
+
     lines = [HEADER, 'import MorphKgc.Model.SqlTypes', '', 'namespace Gen', 'open Py', '',
              '/-- `SQL_RDF_DATATYPE` of relational_db.py, in source order -/',
              'def sqlRdfDatatype : List (Str × Str) := ' + lean_pairs(table), '',
              '/-- shape of the lookup loop at the end of `_get_column_table_datatype` -/',
              f'def sqlLookupKind : Model.SqlLookupKind := .{kind or "firstSubstring"}', '',
+             '/-- shape of the loop of `get_rdb_reference_datatype` over the tables of an rr:sqlQuery -/',
+             'def refLoopShape : Model.RefLoopShape := { breakOnFound := %s, exceptPasses := %s, otherExits := %s }' % tuple(
+                 'true' if loop[k] else 'false' for k in ('breakOnFound', 'exceptPasses', 'otherExits')), '',
              f'def sqlTypesTranslated : Bool := {"true" if not failures else "false"}', '',
              'end Gen', '']
     write_if_changed(os.path.join(out, 'SqlTypes.lean'), '\n'.join(lines))
